@@ -5,6 +5,7 @@ import Bmc.Proofs.GenEnc.Message
 import Bmc.Proofs.GenEnc.AES128CBC
 import Bmc.Proofs.EndToEnd.SessionC03
 import Bmc.Proofs.EndToEnd.HistoryC03
+import Bmc.Proofs.EndToEnd.WholeC03
 #print axioms Bmc.Proofs.C03.datagram_shape
 #print axioms Bmc.Proofs.C03.integrity_pad
 #print axioms Bmc.Proofs.C03.payload_decrypts
@@ -26,3 +27,4 @@ import Bmc.Proofs.EndToEnd.HistoryC03
 #print axioms Bmc.Proofs.EndToEnd.history_datagrams
 #print axioms Bmc.Proofs.EndToEnd.generated_history_datagrams
 #print axioms Bmc.Proofs.EndToEnd.generated_history_packets_open
+#print axioms Bmc.Proofs.EndToEnd.generated_session_then_history_opens
